@@ -42,8 +42,8 @@ CLAIMS = {
              "not crash, exited 0 and nothing failed on the writer's side; the envelope terminator is never written after "
              "a failure; permanent (D) exactly for the documented permanent exit codes, temporary (Z) otherwise. "
              "qmail-smtpd smtp_data: 250 iff queued, 554/552/451 classes; put(): failed exactly at byte databytes+1 and every "
-             "stored byte passes the counter (blast invariant); received.c: only safe characters from peer strings (bounded, "
-             "per byte). qmail-qmqpd main/getbuf and qmail-qmtpd main (11 loop contracts, any byte stream, at most 8 "
+             "stored byte passes the counter (blast invariant); received.c: safeput() writes only safe characters for peer strings of "
+             "any length (loop contract) and received() passes every peer-supplied string through it. qmail-qmqpd main/getbuf and qmail-qmtpd main (11 loop contracts, any byte stream, at most 8 "
              "recipients before the model allocator gives up): K iff qmail_close reported the message queued, an "
              "unacceptable address or an over-size body fails the submission before it is closed, buffers never overrun.",
         note="qmail-queue's own behaviour is C01; substdio, close and wait_pid are environment stubs.",
